@@ -70,3 +70,9 @@ Theorem c03_quadratic_bound (N : nat) (rows : list (list positive)) (E : list po
   (rsum (map (fun r => rsum (map x r) * rsum (map x r)) rows) <= INR N * rsum (map (fun e => x e * x e) E))%R.
 Proof. exact (sumrule_quadratic_bound N rows E x). Qed.
 Print Assumptions c03_quadratic_bound.
+
+(** Hand-modelled code this property's model and correspondences were written against is unchanged (the first-order classes):
+    whole-function match against the recorded source, regenerated on every run. *)
+From SymfcG Require Import ShapesO1.
+Theorem c03_recorded_sources_in_force : ShapesO1_as_recorded = true.
+Proof. repeat split; reflexivity. Qed.
